@@ -41,6 +41,14 @@ def held(labels=(), nontrivial=False, sub=()):
     return Result(True, None, None, labels, nontrivial, sub)
 
 
+def inconclusive(reason, labels=(), sub=()):
+    """The execution did not take the shape this property's oracle is about (e.g. the connection never got Ready in
+    a timing check): neither held nor violated.  Counted under a label, never trivial."""
+    labels = set(labels)
+    labels.add("inconclusive:" + reason)
+    return Result(True, None, None, labels, False, sub)
+
+
 def failed(signature, detail, labels=(), nontrivial=False, sub=()):
     return Result(False, signature, detail, labels, nontrivial, sub)
 
